@@ -35,7 +35,12 @@ def run_case(cs, real, layouts=(None, None)):
     try:
         if op == 'setop':
             a = P.build_index(real['a'])
-            b = P.build_index(real['b'])
+            if cs.get('bform') in ('array', 'list'):
+                # the other operand as a plain NumPy array / list of labels, possibly naming a label more than once: still a SET of labels
+                raw = [P.dec(x) for x in real['b']] + [P.dec(x) for x in real.get('brep', [])]
+                b = np.array(raw, dtype='datetime64[D]' if (raw and isinstance(raw[0], np.datetime64)) else None) if cs['bform'] == 'array' else raw
+            else:
+                b = P.build_index(real['b'])
             r = getattr(a, cs['kind'])(b)
             return {'k': 'labels', 'labels': P.labels_of(r)}
         fn = OPS[cs['fn']]
@@ -120,8 +125,13 @@ def gen_case(rng):
             b = list(a)
         elif pk == 'tuple' and rng.random() < 0.5:
             a, b = near_equal()
-        cs = {'op': 'setop', 'kind': rng.choice(['union', 'intersection', 'difference']), 'a': a, 'b': b}
-        return cs, {'a': a, 'b': b}, (None, None)
+        cs = {'op': 'setop', 'kind': rng.choice(['union', 'intersection', 'difference']), 'a': a, 'b': b, 'bform': 'index'}
+        real = {'a': a, 'b': b}
+        if pk in ('str', 'int', 'date') and a and b and rng.random() < 0.35:          # (an empty index is float64 and would turn int labels into equal floats)
+            cs['bform'] = rng.choice(['array', 'array', 'list'])
+            real['brep'] = [rng.choice(b) for _ in range(rng.randint(0, 2))]
+            cs['b'] = list(b) + real['brep']          # the operand as given (with its repeats) is what the statement sees: it is not 'identical' to a
+        return cs, real, (None, None)
     fnname = rng.choice(['add', 'sub', 'mul', 'eq', 'ne', 'lt', 'le', 'gt', 'and', 'or'])
     kind = 'b' if fnname in ('and', 'or') else rng.choice('iif')
     if r < 0.45:
